@@ -20,7 +20,8 @@ EXPLANATION = ("Rotating sink, time side. R1: the time check precedes the write 
                "(gmtime/timegm or localtime/mktime); the minutely/hourly arm advances its unit by plain addition of one — the carry into "
                "the next hour/day is left to the normalising conversion, a wrapped value (x+1) % n without a carry is a point in the "
                "past — and zeroes every smaller unit; the daily arm takes hour and minute from the configuration."
-               " R4: the name / suffix / rotation-point helpers remember a result only behind a test that compares every parameter. R5: the date suffix is strftime of the instant in the sink's zone. R6: the HH:MM parser (split at ':', two pieces of two characters, hours then minutes, ranges).")
+               " R4: the name / suffix / rotation-point helpers remember a result only behind a test that compares every parameter. R5: the date suffix is strftime of the instant in the sink's zone. R6: the HH:MM parser (split at ':', two pieces of two characters, hours then minutes, ranges)."
+               " R7 (= C13.R7): the calendar conversions the first rotation point rests on are libc's.")
 NOT_DECIDED = ("Where the rotation points fall as calendar values under DST (a daily point moved by +24 h across a DST change), interaction "
                "with the backup limit as behaviour, non-monotonic timestamps. R3 decides how the first point is assembled, not its value.")
 ASSUMPTIONS = ["statement timestamps handed to one sink are non-decreasing (C05)"]
